@@ -281,34 +281,38 @@ theorem denote_length_le (ix : Index) (hv : ix.Valid) (q : SQuery) : (q.denote i
 
 /-! ## the closed operations restricted to one constructor -/
 
+theorem ops_dom (F d k : Nat) : (ops F d).dom k := by cases d <;> trivial
+
 theorem leaf_embed (F d : Nat) {l : Leaf} {c : Cursor} (h : RefinesAt Leaf.ops l c) :
     RefinesAt (ops F d) (.leaf l) c := by
-  apply refinesAt_embed Iter.leaf _ _ _ h
+  apply refinesAt_embed Iter.leaf _ _ _ _ h
   · intro t; cases d <;> rfl
   · intro k t; cases d <;> rfl
   · intro t; cases d <;> rfl
+  · intro _ _; trivial
 
 theorem empty_embed (F d : Nat) : RefinesAt (ops F d) .empty (start []) := by
-  apply refinesAt_embed (fun _ : Unit => Iter.empty) _ _ _ empty_refines
+  apply refinesAt_embed (fun _ : Unit => Iter.empty) _ _ _ _ empty_refines
   · intro t; cases d <;> rfl
   · intro k t; cases d <;> rfl
   · intro t; cases d <;> rfl
+  · intro _ _; trivial
 
 theorem union_embed (F d : Nat) {st : UnionState Iter} {c : Cursor}
     (h : RefinesAt (Union.ops (ops F d)) st c) : RefinesAt (ops F (d + 1)) (.union st) c :=
-  refinesAt_embed Iter.union (fun _ => rfl) (fun _ _ => rfl) (fun _ => rfl) h
+  refinesAt_embed Iter.union (fun _ => rfl) (fun _ _ => rfl) (fun _ => rfl) (fun k _ => ops_dom F d k) h
 
 theorem inter_embed (F d : Nat) {its : List Iter} {c : Cursor}
     (h : RefinesAt (Inter.ops (ops F d) F) its c) : RefinesAt (ops F (d + 1)) (.inter its) c :=
-  refinesAt_embed Iter.inter (fun _ => rfl) (fun _ _ => rfl) (fun _ => rfl) h
+  refinesAt_embed Iter.inter (fun _ => rfl) (fun _ _ => rfl) (fun _ => rfl) (fun k _ => ops_dom F d k) h
 
 theorem range_embed (F d : Nat) {st : RangeState Iter} {c : Cursor}
     (h : RefinesAt (Range.ops (ops F d)) st c) : RefinesAt (ops F (d + 1)) (.range st) c :=
-  refinesAt_embed Iter.range (fun _ => rfl) (fun _ _ => rfl) (fun _ => rfl) h
+  refinesAt_embed Iter.range (fun _ => rfl) (fun _ _ => rfl) (fun _ => rfl) (fun k _ => ops_dom F d k) h
 
 theorem tprefix_embed (F d : Nat) {it : Iter} {c : Cursor}
     (h : RefinesAt (ops F d) it c) : RefinesAt (ops F (d + 1)) (.tprefix it) c :=
-  refinesAt_embed Iter.tprefix (fun _ => rfl) (fun _ _ => rfl) (fun _ => rfl) h
+  refinesAt_embed Iter.tprefix (fun _ => rfl) (fun _ _ => rfl) (fun _ => rfl) (fun k _ => ops_dom F d k) h
 
 theorem indexBegin_refines (F d : Nat) (ix : Index) (hv : ix.Valid) (t : Token) :
     Refines (ops F d) (indexBegin ix t) (ix.get t) := by
@@ -396,6 +400,7 @@ theorem compile_refines (F : Nat) (ix : Index) (hv : ix.Valid) (hF : ix.total < 
             have hl' : l ∈ List.map (SQuery.denote ix) (q :: qs) := by simpa using hl
             obtain ⟨q', hq', rfl⟩ := List.mem_map.1 hl'
             exact h _ (List.mem_map.2 ⟨q', hq', rfl⟩))
+      (fun _ _ x _ => ops_dom F d' x)
     rw [List.map_map] at this
     rw [compileList_eq]
     exact this
@@ -405,7 +410,7 @@ theorem compile_refines (F : Nat) (ix : Index) (hv : ix.Valid) (hF : ix.total < 
     simp only [SQuery.WF] at hw
     simp only [compile, SQuery.denote]
     apply range_embed
-    exact range_refines (ops F d') b e (compile_refines F ix hv hF q hw d' (by omega))
+    exact range_refines (ops F d') b e (compile_refines F ix hv hF q hw d' (by omega)) (ops_dom F d' b)
   | .tokenPrefix p, _, d, hd => by
     simp only [depth] at hd
     obtain ⟨d', rfl⟩ : ∃ d', d = d' + 2 := ⟨d - 2, by omega⟩
